@@ -220,6 +220,8 @@ impl WorldA {
                     }
                     if ack_ranges.len() > 64 {
                         obs.violate("C16", "recorded-set-more-than-64-ranges", "ranges", format!("{} ranges", ack_ranges.len()));
+                        // C13: the Ack packet stays below the carrier limit only because the list is capped
+                        obs.violate("C13", "ack-ranges-above-cap", "emit", format!("{} ranges in one ack packet", ack_ranges.len()));
                     }
                     // (3) equals the reference model of the pending set
                     let model: Vec<std::ops::Range<u64>> = ranges_of(&self.conns[i].ep[side].pend).into_iter().map(|(s, e)| s..e).collect();
